@@ -255,6 +255,11 @@ class CachedStore(Entity):
             existed_in_store = yield from self._backing_store.delete(key)
         finally:
             self._end_mutation(key)
+        # A put() that overlapped this delete re-cached the key.  Whichever of
+        # the two reaches the backing store last wins there, so the cached
+        # copy must not outlive the delete (it would disagree with the store).
+        if key in self._cache:
+            self._cache_remove(key)
         return existed_in_cache or existed_in_store
 
     def invalidate(self, key: str) -> None:
